@@ -53,6 +53,13 @@ def _pos_lit(e):
     return isinstance(e, ast.Constant) and isinstance(e.value, int) and not isinstance(e.value, bool) and e.value > 0
 
 
+HELPERS = {}      # name -> FunctionDef: same-module functions of the function being compiled (inlined symbolically)
+
+
+def _module_helpers(mod):
+    return {n.name: n for n in mod.body if isinstance(n, ast.FunctionDef)}
+
+
 class TE:
     """typed expression translator: expr(e) -> (lean_term, 'int' | 'rat' | 'list').
 
@@ -224,6 +231,8 @@ class TE:
             for a, pty in zip(e.args, ptys):
                 args.append(self.as_int(a) if pty == 'int' else self.rat(self.expr(a)))
             return '(' + ' '.join([name] + args) + ')', rty
+        if f in HELPERS and f not in self.env:
+            return self.inline(HELPERS[f], e)
         if f in _CEIL or f in _FLOOR:
             (a,) = e.args
             if f in _CEIL:
@@ -260,6 +269,40 @@ class TE:
             if ty == 'list':
                 return f'(({t}).length : Int)', 'int'
         raise Untranslatable(f'call {ast.unparse(e)}')
+
+    def inline(self, fn, call, depth=[0]):
+        """symbolic inlining of a same-module straight-line helper: parameters are bound to the translated arguments,
+        local assignments are substituted, the returned expression is the value.  Anything else is untranslatable."""
+        bad = purity_problems(fn)
+        if bad:
+            raise Untranslatable(f'helper {fn.name} is not a pure straight-line function: ' + '; '.join(bad[:3]))
+        params = [a.arg for a in fn.args.args]
+        if len(params) != len(call.args):
+            raise Untranslatable(f'arity of helper {fn.name}')
+        if depth[0] >= 4:
+            raise Untranslatable(f'helper nesting too deep at {fn.name}')
+        env = {p: self.expr(a) for p, a in zip(params, call.args)}
+        sub = TE(env, self.funcs)
+        sub.ntmp = self.ntmp
+        depth[0] += 1
+        try:
+            for st in fn.body:
+                if isinstance(st, ast.Expr) and isinstance(st.value, ast.Constant):
+                    continue
+                if isinstance(st, ast.AugAssign) and isinstance(st.target, ast.Name):
+                    st = ast.Assign(targets=[st.target], value=ast.BinOp(left=ast.Name(id=st.target.id, ctx=ast.Load()),
+                                                                          op=st.op, right=st.value))
+                if isinstance(st, ast.Assign) and len(st.targets) == 1 and isinstance(st.targets[0], ast.Name):
+                    sub.env = {**sub.env, st.targets[0].id: sub.expr(st.value)}
+                    continue
+                if isinstance(st, ast.Return) and st.value is not None and not isinstance(st.value, ast.Tuple):
+                    out = sub.expr(st.value)
+                    self.binds += sub.binds
+                    return out
+                raise Untranslatable(f'helper {fn.name} is not straight-line: {ast.unparse(st)[:50]}')
+            raise Untranslatable(f'helper {fn.name} has no return')
+        finally:
+            depth[0] -= 1
 
     # -- conditions (decidable Props)
     def cond(self, e):
@@ -586,12 +629,16 @@ def purity_problems(fn):
     declared = {x for n in ast.walk(fn) if isinstance(n, (ast.Global, ast.Nonlocal)) for x in n.names}
     local -= declared
 
+    callee_ids = {id(n.func) for n in ast.walk(fn) if isinstance(n, ast.Call) and isinstance(n.func, ast.Name)}
+
     def root(x):
         while isinstance(x, (ast.Attribute, ast.Subscript)):
             x = x.value
         return x.id if isinstance(x, ast.Name) else None
     for n in ast.walk(fn):
         if isinstance(n, ast.Name) and isinstance(n.ctx, ast.Load) and n.id not in local and n.id not in _PURE_NAMES:
+            if n.id in HELPERS and n.id != fn.name and id(n) in callee_ids:
+                continue        # a same-module helper used as a callee: inlined (and checked) by the translator
             out.append(f'reads the non-local name {n.id}')
         if isinstance(n, (ast.Attribute, ast.Subscript)) and isinstance(n.ctx, (ast.Store, ast.Del)):
             r = root(n)
@@ -695,7 +742,12 @@ def generate(repo):
 
     def whole(mod, pyname, lean, fuel=None):
         def build():
-            return compile_fn(get_def(mod, pyname), lean, funcs, fuel)
+            HELPERS.clear()
+            HELPERS.update({k: v for k, v in _module_helpers(mod).items() if k != pyname and k not in funcs})
+            try:
+                return compile_fn(get_def(mod, pyname), lean, funcs, fuel)
+            finally:
+                HELPERS.clear()
         return build
 
     g.item('nm_to_fringe', 'prysm/polynomials/zernike.py:nm_to_fringe', lambda: get_def(zk, 'nm_to_fringe'),
@@ -719,9 +771,23 @@ def generate(repo):
     # structural fact (evidence; not a theorem: correct memoisation would make it false without breaking the property —
     # when it is false the items above are `untranslatable` and the harness widens its order-independence probing)
     def stateless():
-        fns = [get_def(mo, 'sign'), get_def(mo, 'is_odd'), get_def(xy, 'xy_j_to_mn')] + \
-              [get_def(zk, n) for n in ('nm_to_fringe', 'nm_to_ansi_j', 'ansi_j_to_nm', 'noll_to_nm', 'fringe_to_nm')]
-        return True if not any(purity_problems(f) for f in fns) else None     # None: not decidable from the text -> degraded tie, wider probing
+        pairs = [(mo, 'sign'), (mo, 'is_odd'), (xy, 'xy_j_to_mn')] + \
+                [(zk, n) for n in ('nm_to_fringe', 'nm_to_ansi_j', 'ansi_j_to_nm', 'noll_to_nm', 'fringe_to_nm')]
+        bad = False
+        for mod_, nm in pairs:
+            HELPERS.clear()
+            HELPERS.update({k: v for k, v in _module_helpers(mod_).items() if k != nm and k not in funcs})
+            try:
+                fn = get_def(mod_, nm)
+                probs = purity_problems(fn)
+                # helpers reached through calls must be pure as well
+                for c in ast.walk(fn):
+                    if isinstance(c, ast.Call) and isinstance(c.func, ast.Name) and c.func.id in HELPERS:
+                        probs += purity_problems(HELPERS[c.func.id])
+                bad = bad or bool(probs)
+            finally:
+                HELPERS.clear()
+        return True if not bad else None     # None: not decidable from the text -> degraded tie, wider probing
     def public_names():
         ini, _ = load(repo, 'prysm/polynomials/__init__.py')
         want = {'zernike': {'ansi_j_to_nm', 'nm_to_ansi_j', 'nm_to_fringe', 'noll_to_nm', 'fringe_to_nm'}, 'xy': {'xy_j_to_mn'}}
